@@ -1,6 +1,7 @@
 package drivers
 
 import (
+	"github.com/gr33nbl00d/caddy-revocation-validator/core/hashing"
 	"io"
 	"syscall"
 
@@ -448,6 +449,53 @@ func RunC09(tier string, args []string) int {
 					return func() {}
 				}, true, extras)
 			}
+			// the housekeeping records of the same store (meta info, extended meta info, locations): damaged, they may make a
+			// lookup fail - never make it answer "not revoked". (A lookup which does not read them is not touched by the
+			// damage and is not judged.)
+			if extras {
+				continue
+			}
+			for _, hk := range []string{crlstore.MetaInfoKey, crlstore.ExtendedMetaInfoKey, crlstore.CRLLocationKey} {
+				hk := hk
+				var val []byte
+				seqWorld(func() {
+					w := NewCW(CWOpt{Disk: disk, SigMode: config.SignatureValidationModeVerify})
+					defer os.RemoveAll(w.Dir)
+					w.Provision()
+					vsched.Drain()
+					w.Net.Serve(urlA, "v1", c.vers[1])
+					w.Lookup(listed, c.chain(listed))
+					for _, e := range w.Repo().VerifEntries() {
+						if e.ID != "" && val == nil {
+							val = c09ReadRaw(e.Store, hk)
+						}
+					}
+					w.Chk.Cleanup()
+				})
+				if len(val) == 0 {
+					continue
+				}
+				for bit := 0; bit < len(val)*8; bit++ {
+					bad := append([]byte{}, val...)
+					bad[bit/8] ^= 1 << (uint(bit) % 8)
+					run(disk, "housekeeping-record:"+hk+"@bitflip", func(w *CW) func() {
+						if disk {
+							vleveldb.ValueHook = func(path string, key, value []byte) []byte {
+								if string(value) == string(val) {
+									c09Hit = true
+									return bad
+								}
+								return value
+							}
+							return func() { vleveldb.ValueHook = nil }
+						}
+						// memory: the damage is in the map; whether the lookup reads the record is not observable, so every
+						// lookup counts as touched (a lookup which ignores the record answers "revoked" and passes)
+						c09Hit = c09MemCorrupt(w, val, bad)
+						return func() {}
+					}, true, false)
+				}
+			}
 		}
 	}
 	physEvals, physNoticed := c09Physical(chk, c, tier)
@@ -533,6 +581,21 @@ func c09MemCorrupt(w *CW, rec, bad []byte) bool {
 		}
 	}
 	return false
+}
+
+// c09ReadRaw returns the stored bytes of a housekeeping record of either backend.
+func c09ReadRaw(s crlstore.CRLStore, key string) []byte {
+	if fs, ok := s.(*faultStore); ok {
+		s = fs.CRLStore
+	}
+	switch st := s.(type) {
+	case *crlstore.MapStore:
+		return st.Map[string(hashing.Sum64(key))]
+	case *crlstore.LevelDbStore:
+		v, _ := st.Db.Get(hashing.Sum64(key), nil)
+		return v
+	}
+	return nil
 }
 
 func unwrapMapStore(s crlstore.CRLStore) *crlstore.MapStore {
